@@ -502,8 +502,10 @@ Proof.
       apply andb_true_iff in Hb. destruct Hb as [Hx Hb]. apply seqb_eq in Hx. subst. f_equal. apply IHa. exact Hb. }
     assert (Hmap : forall tb, (forall kv, In kv tb -> In kv wtb) ->
        map_res (fun k0 : xml => match sfind (xtag k0) rtb, xtext k0 with
-                 | Some m, Some s => if String.eqb s "true" then Ok (Some m)
-                                     else if String.eqb s "false" then Ok None else Err
+                 | Some m, Some s => match xs_bool s with
+                                     | Some true => Ok (Some m)
+                                     | Some false => Ok None
+                                     | None => Err end
                  | _, _ => Err end)
           (map (fun kv => text_elem (snd kv) (bool_text (vmem (fst kv) l))) tb)
        = Ok (map (fun kv => if vmem (fst kv) l then Some (fst kv) else None) tb)).
